@@ -186,6 +186,20 @@ def r8(ctx, rep):
     rep.check(n_sites >= 1, "way-out", "expected the struct update that stamps the call's span on the materialised body", file=f["file"], line=f["l"], fn=f["path"])
 
 
+def r9(ctx, rep):
+    # naming a prefix with `let` moves a `take` into a sub-query of its own; written inline, two takes meet in one SELECT and are merged
+    # by range_of_ranges. Both spellings return the same rows only if the merge is the composition of the two ranges.
+    import C03
+    rep.borrowed(C03.r5, ctx, "C06.R9", "two takes merged inside one SELECT select the rows that two nested sub-queries would", only=r"^compose")
+
+
+def r10(ctx, rep):
+    # .. and a derive after a take stays behind it unless it is a plain expression: `take 3 | derive {total = sum b}` inline must equal
+    # `let top = (.. | take 3)` + `from top | derive {total = sum b}`
+    import C01
+    rep.borrowed(C01.r6, ctx, "C06.R10", "a compute is evaluated over the rows a preceding take leaves, as it would be over a let-bound prefix")
+
+
 def run(ctx, rep):
-    for r in (r1, r2, r3, r4, r5, r6, r7, r8):
+    for r in (r1, r2, r3, r4, r5, r6, r7, r8, r9, r10):
         rep.guard(r, ctx)
